@@ -1,9 +1,13 @@
 """C15 -- a ModelProto and an IR model are treated alike, and nothing untouched is lost.
 
-Coq: Serde/Wrappers.v (each wrapper as deserialize -> pass -> serialize -> copy-back), Serde/Tree.v (inclusion checker with
-soundness theorem), Serde/Packing.v (int4/uint4/int2/uint2 codecs); theorems in Props/C15.v.  Tie:
-  * translator (regenerate): the copy-back discipline of every wrapper is recognised in the source by AST (fail-closed) and
-    written to Gen/C15Wrappers.v; Props/C15.v is re-proved against it;
+Coq: Serde/Wrappers.v (each wrapper as deserialize -> pass -> serialize -> copy-back), Serde/Forward.v (pass calls and option
+forwarding of the two entry forms; `forwarding_ok`), Serde/Tree.v (inclusion checker, sound and complete), Serde/Packing.v
+(4-bit / 2-bit packing, 16-bit / 8-bit byte codecs, int32_data carrier); theorems in Props/C15.v.  Tie:
+  * translator (regenerate): the copy-back discipline of every wrapper AND, per entry form, its pass calls with the complete
+    option-forwarding map (harness/c15_forward.py) are recognised in the source by AST (fail-closed) and written to
+    Gen/C15Wrappers.v; Props/C15.v is re-proved against it (forallb forwarding_ok src_fw_all = true by vm_compute);
+  * the translated forwarding maps against the running code: recording pass-throughs on every callee, non-default value for
+    every option, both entry forms;
   * correspondence: for generated valid models and every API in both entry forms, the real effect (argument afterwards,
     what is returned) is compared with the wrapper model evaluated in Coq on interned parts (graph / functions /
     opset_import / rest); packing codecs are diffed against onnx_ir for lengths 0..9;
@@ -21,6 +25,7 @@ import numpy as np
 
 from harness import common
 from harness import c15_models as gm
+from harness import c15_forward as fwd
 from harness.common import cbool, clist, cnat, cz
 
 PROPERTY = "C15"
@@ -33,7 +38,10 @@ SRC = {
     "version_converter": os.path.join(REPO, "onnxscript", "version_converter", "__init__.py"),
     "replace": os.path.join(REPO, "onnxscript", "utils", "replace.py"),
     "ir": os.path.join(REPO, "onnxscript", "ir", "__init__.py"),
+    "ir_convenience": os.path.join(REPO, "onnxscript", "ir", "convenience.py"),
+    "ir_passes": os.path.join(REPO, "onnxscript", "ir", "passes", "__init__.py"),
 }
+APIS = ("optimize", "fold_constants", "remove_unused_nodes", "remove_unused_functions", "rewrite", "replace_functions", "convert_version")
 
 
 # ----------------------------------------------------------------------------- translator
@@ -160,6 +168,34 @@ def analyse_sources():
     irsrc = open(SRC["ir"]).read()
     if "from onnx_ir import *" not in irsrc:
         problems.append("onnxscript/ir/__init__.py no longer re-exports onnx_ir")
+    # onnxscript.ir / ir.convenience / ir.passes: pure re-exports of onnx_ir -- no entry point of their own that could treat the two
+    # forms differently (anything but imports, __all__ and a docstring is not modelled: fail closed)
+    for key, allowed_from in (("ir", ("onnx_ir",)), ("ir_convenience", ("onnx_ir.convenience",)), ("ir_passes", ("onnx_ir.passes",))):
+        try:
+            t = ast.parse(open(SRC[key]).read())
+        except OSError as e:
+            problems.append(f"{key}: {e}")
+            continue
+        for st in t.body:
+            if isinstance(st, ast.Expr) and isinstance(st.value, ast.Constant):
+                continue
+            if isinstance(st, ast.ImportFrom) and st.module in allowed_from and st.level == 0:
+                continue
+            if isinstance(st, ast.Assign) and len(st.targets) == 1 and _u(st.targets[0]) == "__all__":
+                continue
+            problems.append(f"onnxscript/{key.replace('_', '/')}: statement other than a re-export of {allowed_from[0]}: {_u(st)[:80]}")
+    # every other public function of the anchored modules that tests the entry form must be in the table
+    listed = {"optimize", "fold_constants", "remove_unused_nodes", "remove_unused_functions", "rewrite", "convert_version", "replace_functions"}
+    for key, tree in (("optimizer", t_opt), ("rewriter", t_rw), ("version_converter", t_vc), ("replace", t_rp)):
+        for st in tree.body:
+            if isinstance(st, ast.FunctionDef) and not st.name.startswith("_") and st.name not in listed:
+                src = _u(st)
+                if "onnx.ModelProto" in src and ("isinstance" in src or any(d + "(" in src for d in DESERIALIZERS)):
+                    problems.append(f"{key}.{st.name} accepts a ModelProto but is not in the wrapper table")
+    # pass calls and option forwarding, per wrapper and per entry form
+    table, fproblems = fwd.analyse({api: (tree, fname) for api, tree, fname in spec})
+    out["forwarding"] = table
+    problems += fproblems
     return out, problems
 
 
@@ -169,9 +205,14 @@ def regenerate(ctx):
     ctx._c15_problems = problems
     text = ("(* generated by harness/c15.py from the wrapper sources -- do not edit *)\n"
             "Require Import OV.Serde.Wrappers.\n"
-            + "".join(f"Definition src_{api} : copyback := {d[api]}.\n" for api in
-                      ("optimize", "fold_constants", "remove_unused_nodes", "remove_unused_functions", "rewrite", "replace_functions", "convert_version"))
-            + f"Definition src_rewrite_empty_returns_arg : bool := {cbool(d['rewrite_empty_returns_arg'])}.\n")
+            "Require Import OV.Serde.Forward.\nFrom Coq Require Import List String.\nImport ListNotations.\nLocal Open Scope string_scope.\n"
+            + "".join(f"Definition src_{api} : copyback := {d[api]}.\n" for api in APIS)
+            + f"Definition src_rewrite_empty_returns_arg : bool := {cbool(d['rewrite_empty_returns_arg'])}.\n"
+            + "(* pass calls and option forwarding of the two entry forms *)\n"
+            + "".join(fwd.coq_wrapper(api, d["forwarding"][api]) for api in APIS)
+            + "Definition src_fw_all : list wrapper_src := [" + "; ".join(f"src_fw_{api}" for api in APIS) + "].\n"
+            + "Definition src_fw_total : list (wrapper_src * copyback) := ["
+            + "; ".join(f"(src_fw_{api}, src_{api})" for api in APIS if api != "convert_version") + "].\n")
     ctx.gen("C15Wrappers", text)
 
 
@@ -218,23 +259,23 @@ def apis(rules_some):
     """name -> (discipline key, other?, proto call, ir call, ir ret kind expected, kinds of model it is run on)."""
     from onnxscript import optimizer, rewriter, version_converter
     return [
-        ("optimize", "optimize", False, lambda p: optimizer.optimize(p), lambda m: optimizer.optimize(m), "arg", {"inert", "active", "functions", "plain"}),
+        ("optimize", "optimize", False, lambda p: optimizer.optimize(p), lambda m: optimizer.optimize(m), "arg", {"inert", "active", "functions", "plain", "full"}),
         ("optimize_noinline", "optimize", False, lambda p: optimizer.optimize(p, inline=False, num_iterations=1),
-         lambda m: optimizer.optimize(m, inline=False, num_iterations=1), "arg", {"inert", "functions"}),
+         lambda m: optimizer.optimize(m, inline=False, num_iterations=1), "arg", {"inert", "functions", "full"}),
         ("fold_constants", "fold_constants", True, lambda p: optimizer.fold_constants(p), lambda m: optimizer.fold_constants(m), "other",
-         {"inert", "active", "functions", "plain"}),
+         {"inert", "active", "functions", "plain", "full"}),
         ("remove_unused_nodes", "remove_unused_nodes", False, lambda p: optimizer.remove_unused_nodes(p),
-         lambda m: optimizer.remove_unused_nodes(m), "none", {"inert", "active", "functions", "plain"}),
+         lambda m: optimizer.remove_unused_nodes(m), "none", {"inert", "active", "functions", "plain", "full"}),
         ("remove_unused_functions", "remove_unused_functions", False, lambda p: optimizer.remove_unused_functions(p),
-         lambda m: optimizer.remove_unused_functions(m), "none", {"inert", "active", "functions", "plain"}),
-        ("rewrite_default", "rewrite", False, lambda p: rewriter.rewrite(p), lambda m: rewriter.rewrite(m), "arg", {"inert", "active", "functions", "plain"}),
+         lambda m: optimizer.remove_unused_functions(m), "none", {"inert", "active", "functions", "plain", "full"}),
+        ("rewrite_default", "rewrite", False, lambda p: rewriter.rewrite(p), lambda m: rewriter.rewrite(m), "arg", {"inert", "active", "functions", "plain", "full"}),
         ("rewrite_rules", "rewrite", False, lambda p: rewriter.rewrite(p, rules_some), lambda m: rewriter.rewrite(m, rules_some), "arg",
          {"inert", "active", "plain"}),
         ("rewrite_empty", "rewrite_empty", False, lambda p: rewriter.rewrite(p, []), lambda m: rewriter.rewrite(m, []), "arg", {"inert", "active"}),
         ("convert_version_same", "convert_version", False, lambda p: version_converter.convert_version(p, 18),
          lambda m: version_converter.convert_version(m, 18), "none", {"inert", "active"}),
         ("convert_version_up", "convert_version", False, lambda p: version_converter.convert_version(p, 20),
-         lambda m: version_converter.convert_version(m, 20), "none", {"inert", "active", "functions", "plain"}),
+         lambda m: version_converter.convert_version(m, 20), "none", {"inert", "active", "functions", "plain", "full"}),
     ] + [
         # fallback in {True, False}, targets below and above the source; below the native range only the ONNX C-API path can run
         (f"convert_version_{t}_fallback_{fb}", "convert_version", False,
@@ -244,6 +285,8 @@ def apis(rules_some):
     ]
 
 
+# TensorProto.segment: "for very large tensors ... not currently used" (onnx.proto); no producer sets it, the checker rejects nothing about it
+SCHEMA_EXCLUDED = {("TensorProto", "segment"), ("Segment", "begin"), ("Segment", "end")}
 INERT_INCLUDE = {"optimize_noinline", "fold_constants"}
 INERT_EQUAL = {"optimize_noinline", "fold_constants", "remove_unused_nodes", "remove_unused_functions", "rewrite_default", "rewrite_rules",
                "convert_version_same"}
@@ -287,7 +330,7 @@ def initializers_survive(onnx, before, after):
     return sorted(lost), sorted(changed)
 
 
-def carriers(tree_n, tree_f):
+def carriers(tree_n, tree_f, lifted_ok=False):
     """The part of N(M)'s tree that no listed transformation needs to change, cut down to what still exists in f(M):
     model-level fields, graph name/doc/metadata, graph inputs/outputs, initializers that still exist, metadata/doc of values
     that still exist, functions that still exist, and nodes whose name, op and connections are unchanged."""
@@ -295,12 +338,13 @@ def carriers(tree_n, tree_f):
         return dict(t[1]) if t[0] == "node" else {}
     n, f = fields(tree_n), fields(tree_f)
     out = [(k, v) for k, v in tree_n[1] if k in ("ir_version", "producer_name", "producer_version", "domain", "model_version", "doc_string",
-                                                   "metadata_props")]
+                                                   "metadata_props", "configuration", "training_info")]
     if "functions" in n and "functions" in f and n["functions"][0] == "node" and f["functions"][0] == "node":
         keep = dict(f["functions"][1])
         out.append(("functions", ("node", [(k, v) for k, v in n["functions"][1] if k in keep])))
     gn, gf = fields(n.get("graph", ("node", []))), fields(f.get("graph", ("node", [])))
-    g = [(k, v) for k, v in n.get("graph", ("node", []))[1] if k in ("name", "doc_string", "metadata_props", "input", "output")]
+    g = [(k, v) for k, v in n.get("graph", ("node", []))[1] if k in ("name", "doc_string", "metadata_props", "input", "output", "quantization_annotation",
+                                                                         "sparse_initializer")]
     # nodes by name when signature unchanged
     def sig(node_tree):
         d = dict(node_tree[1])
@@ -314,9 +358,42 @@ def carriers(tree_n, tree_f):
                 nm = dict(t[1]).get("name")
                 if nm:
                     stable_values.add(nm[1])
+    lifted = []
+    all_inits_f = set()
+
+    def collect(t):
+        if t[0] == "seq":
+            for x in t[1]:
+                collect(x)
+        elif t[0] == "node":
+            for k, v in t[1]:
+                if k == "initializer" and v[0] == "node":
+                    all_inits_f.update(nm for nm, _ in v[1])
+                collect(v)
+    collect(tree_f)
+
+    def relax(t, inside=False):
+        """Inside graph-valued attributes: value types may be refined by shape inference (keep name / doc / metadata of value_info only) and
+        initializers may be lifted to the main graph (expected there instead, under their name)."""
+        if t[0] == "seq":
+            return ("seq", [relax(x, inside) for x in t[1]])
+        if t[0] != "node":
+            return t
+        fs = []
+        own_inits = {nm for k, v in t[1] if k == "initializer" and v[0] == "node" for nm, _ in v[1]} if lifted_ok else set()
+        for k, v in t[1]:
+            if inside and lifted_ok and k == "initializer" and v[0] == "node":
+                lifted.extend(v[1])
+                continue
+            if inside and k == "value_info" and v[0] == "node":
+                fs.append((k, ("node", [(nm, ("node", [(a, b) for a, b in vv[1] if a in ("name", "doc_string", "metadata_props")])) for nm, vv in v[1]
+                                        if nm not in own_inits])))
+                continue
+            fs.append((k, relax(v, inside or k in ("g", "graphs"))))
+        return ("node", fs)
     if "node" in gn and "node" in gf:
         fs = {sig(t): t for t in gf["node"][1]}
-        ns = [t for t in gn["node"][1] if sig(t) in fs and dict(t[1]).get("name")]
+        ns = [relax(t) for t in gn["node"][1] if sig(t) in fs and dict(t[1]).get("name")]
         names = [dict(t[1])["name"][1] for t in ns]
         if len(set(names)) == len(names):
             g.append(("node_by_name", ("node", [(nm.decode(), t) for nm, t in zip(names, ns)])))
@@ -328,8 +405,9 @@ def carriers(tree_n, tree_f):
         if fld in gn and fld in gf and gn[fld][0] == "node" and gf[fld][0] == "node":
             keep = dict(gf[fld][1])
             items = []
-            for k, v in gn[fld][1]:
-                if k in keep:
+            have = {k for k, _ in gn[fld][1]}
+            for k, v in list(gn[fld][1]) + ([kv for kv in lifted if kv[0] not in have] if fld == "initializer" else []):
+                if k in keep or (fld == "initializer" and (k, v) in lifted and k not in all_inits_f):
                     if strip:
                         # only values whose producer is untouched; types/shapes may be refined by shape inference
                         if k.encode() not in stable_values:
@@ -375,6 +453,220 @@ def eval_bools(ctx, requires, prelude, exprs, label, shard=40):
     return bad
 
 
+# ----------------------------------------------------------------------------- option forwarding
+
+def _resolve(module, dotted):
+    """(holder object, attribute name) of a dotted callee name as the wrapper's module sees it."""
+    parts = dotted.split(".")
+    holder = module
+    for p in parts[:-1]:
+        holder = getattr(holder, p)
+    getattr(holder, parts[-1])
+    return holder, parts[-1]
+
+
+def _inner_callees(table_entry):
+    """Callees constructed inside argument expressions (e.g. RewritePass(rules) inside the PassManager tuple)."""
+    names = []
+    for form in ("ir", "proto"):
+        for c in table_entry[form]:
+            for part in (c["ctor"], c["args"]):
+                if part is None:
+                    continue
+                for a in part["pos"] + [v for _, v in part["kw"]]:
+                    if a[0] == "expr":
+                        try:
+                            e = ast.parse(a[1], mode="eval")
+                        except SyntaxError:
+                            continue
+                        for n in ast.walk(e):
+                            if isinstance(n, ast.Call):
+                                nm = _u(n.func)
+                                if nm not in DESERIALIZERS and nm not in SERIALIZERS and nm not in names and all(x.isidentifier() for x in nm.split(".")):
+                                    names.append(nm)
+    return names
+
+
+def forwarding_stream(ctx, disc, models, rules_some):
+    """(1) per wrapper: `forwarding_ok` of the translated table, decided in Coq; (2) the translated table against the running code:
+    every callee is replaced by a recording pass-through, each wrapper is called in both entry forms with a non-default value for
+    every option of its signature, and what reached the callee is compared with the table's prediction and across the two forms."""
+    import inspect
+    import onnx
+    from onnxscript import ir, optimizer, rewriter, version_converter
+    from onnxscript.utils import replace as replace_mod
+    table = disc["forwarding"]
+    ok, vals, raw = ctx.coq_eval(["OV.Serde.Forward", "OV.Gen.C15Wrappers"],
+                                 "".join(f"Eval vm_compute in (forwarding_ok src_fw_{a}).\nEval vm_compute in (unforwarded src_fw_{a} (w_proto src_fw_{a})).\n"
+                                         for a in APIS), name="c15_forwarding")
+    if not ok or len(vals) != 2 * len(APIS):
+        ctx.tie_broken("proof", "forwarding_ok", raw[-800:])
+        return
+    unfw = {}
+    for i, a in enumerate(APIS):
+        good = vals[2 * i].strip().startswith("true")
+        unfw[a] = vals[2 * i + 1].split(":")[0].strip()
+        detail = "" if good else fwd.describe_difference(table[a])
+        ctx.obligation(f"forwarding: {a}: ir.Model branch and ModelProto branch hand the model to the same pass with the same options "
+                       f"({len(table[a]['proto'])} call(s), options {table[a]['params']})", good, detail)
+        if not good:
+            ctx.tie_broken("translator", f"forwarding:{a}", detail or "the two branches differ")
+    # ---- runtime cross-check
+    fns = gm.replacement_functions(onnx)
+    mods = {"optimize": optimizer, "fold_constants": optimizer, "remove_unused_nodes": optimizer, "remove_unused_functions": optimizer,
+            "rewrite": rewriter, "convert_version": version_converter, "replace_functions": replace_mod}
+    extra = {"fold_constants": {"kwargs": {"onnx_shape_inference": True, "input_size_limit": 11, "output_size_limit": 13}, "args": ()},
+             "convert_version": {"target_version": 19, "fallback": True},
+             "rewrite": {"pattern_rewrite_rules": rules_some},
+             "replace_functions": {"functions": fns}}
+    m_fn = next(m for m, info in models if info["kind"] == "functions")
+    m_rp = next(m for m, info in models if info["kind"] == "replace")
+    n_calls = n_opts = 0
+    mismatches = []
+    for api in APIS:
+        module = mods[api]
+        wrapper = getattr(module, api)
+        sig = inspect.signature(wrapper)
+        pos_opts, kw_opts, env = [], {}, {}
+        try:
+            for name, prm in list(sig.parameters.items())[1:]:
+                if prm.kind == prm.VAR_POSITIONAL:
+                    env[name] = tuple(extra.get(api, {}).get(name, ()))
+                    pos_opts = list(env[name])
+                elif prm.kind == prm.VAR_KEYWORD:
+                    env[name] = dict(extra.get(api, {}).get(name, {}))
+                else:
+                    env[name] = fwd.nondefault(name, prm.default, extra.get(api, {}))
+                    kw_opts[name] = env[name]
+        except KeyError as e:
+            ctx.tie_broken("harness", f"forwarding:{api}", f"no non-default value known for option {e}")
+            continue
+        if sorted(env) != sorted(table[api]["params"]):
+            ctx.tie_broken("translator", f"forwarding:{api}", f"signature at run time {sorted(env)} differs from the translated one {sorted(table[api]['params'])}")
+            continue
+        n_opts += len(env)
+        callees = [c["fun"] for c in table[api]["proto"]] + _inner_callees(table[api])
+        logs = {}
+        results = {}
+        src = m_rp if api == "replace_functions" else m_fn
+        for form in ("proto", "ir"):
+            log = []
+            spies = []
+            try:
+                seen = set()
+                for nm in callees:
+                    if nm in seen:
+                        continue
+                    seen.add(nm)
+                    holder, attr = _resolve(module, nm)
+                    spies.append(fwd.Spy(holder, attr, log, nm))
+            except AttributeError as e:
+                ctx.tie_broken("translator", f"forwarding:{api}", f"callee does not resolve in the wrapper's module: {e}")
+                break
+            for sp in spies:
+                sp.__enter__()
+            try:
+                allkw = dict(kw_opts)
+                for name, prm in sig.parameters.items():
+                    if prm.kind == prm.VAR_KEYWORD:
+                        allkw.update(env[name])
+                if form == "proto":
+                    arg = copy_proto(src)
+                    r = wrapper(arg, *pos_opts, **allkw)
+                    results[form] = r if isinstance(r, onnx.ModelProto) else arg
+                else:
+                    mi = ir.serde.deserialize_model(copy_proto(src))
+                    if api == "replace_functions":
+                        replace_mod.replace_functions_inplace(mi, [ir.from_proto(f) for f in fns])
+                    else:
+                        wrapper(mi, *pos_opts, **allkw)
+                    results[form] = ir.serde.serialize_model(mi)
+            except Exception as e:  # noqa: BLE001
+                results[form] = e
+            finally:
+                for sp in reversed(spies):
+                    sp.__exit__()
+            logs[form] = log
+        else:
+            n_calls += 2
+
+            def canon(v, depth=0):
+                if isinstance(v, ir.Model):
+                    return "<model>"
+                for name, val in env.items():
+                    if v is val and not isinstance(v, (bool, int, tuple)):
+                        return f"<option {name}>"
+                if isinstance(v, (bool, int, float, str, type(None))):
+                    return repr(v)
+                if isinstance(v, (list, tuple)) and depth < 3:
+                    return "[" + ",".join(canon(x, depth + 1) for x in v) + "]"
+                if isinstance(v, dict) and depth < 3:
+                    return "{" + ",".join(f"{k}:{canon(x, depth + 1)}" for k, x in sorted(v.items())) + "}"
+                if isinstance(v, ir.Function):
+                    return f"<function {v.identifier()}>"
+                return f"<{type(v).__name__}>"
+            cl = {f: [(t, k, [canon(x) for x in a], sorted((kk, canon(x)) for kk, x in kw.items())) for t, k, a, kw in logs[f]] for f in logs}
+            # prediction of the translated table, per form
+            for form in ("proto", "ir"):
+                if api == "replace_functions" and form == "ir":
+                    continue
+                want = []
+                for c in table[api][form]:
+                    for part, kind in ((c["ctor"], "ctor"), (c["args"], "call")):
+                        if part is None:
+                            continue
+                        want.append((c["fun"], kind, part))
+                got = [e for e in logs[form] if e[0] in {c["fun"] for c in table[api][form]}]
+                if len(got) != len(want):
+                    mismatches.append((api, form, f"{len(got)} recorded calls of {[c['fun'] for c in table[api][form]]}, the table predicts {len(want)}"))
+                    continue
+                for (t, k, a, kw), (wt, wk, part) in zip(got, want):
+                    if (t, k) != (wt, wk):
+                        mismatches.append((api, form, f"recorded {t}/{k}, predicted {wt}/{wk}"))
+                        continue
+                    exp_pos = len(part["pos"]) + (len(env[part["star"]]) if part["star"] else 0)
+                    if len(a) != exp_pos:
+                        mismatches.append((api, form, f"{t}: {len(a)} positional arguments, predicted {exp_pos}"))
+                        continue
+                    for x, cls in zip(a, part["pos"]):
+                        if cls[0] == "model" and not isinstance(x, ir.Model):
+                            mismatches.append((api, form, f"{t}: positional argument predicted to be the model is a {type(x).__name__}"))
+                        if cls[0] == "param" and not (x is env[cls[1]] or x == env[cls[1]]):
+                            mismatches.append((api, form, f"{t}: positional argument predicted to be option {cls[1]} is {x!r}"))
+                    if part["star"] and tuple(a[len(part["pos"]):]) != tuple(env[part["star"]]):
+                        mismatches.append((api, form, f"{t}: *{part['star']} not forwarded as given"))
+                    exp_keys = {kk for kk, _ in part["kw"]} | (set(env[part["dstar"]]) if part["dstar"] else set())
+                    if set(kw) != exp_keys:
+                        mismatches.append((api, form, f"{t}: keyword arguments {sorted(kw)}, predicted {sorted(exp_keys)}"))
+                        continue
+                    for kk, cls in part["kw"]:
+                        if cls[0] == "param" and not (kw[kk] is env[cls[1]] or kw[kk] == env[cls[1]]):
+                            mismatches.append((api, form, f"{t}: keyword {kk} predicted to carry option {cls[1]}={env[cls[1]]!r}, carries {kw[kk]!r}"))
+                    if part["dstar"]:
+                        for kk, vv in env[part["dstar"]].items():
+                            if kw.get(kk) != vv:
+                                mismatches.append((api, form, f"{t}: **{part['dstar']}[{kk}] not forwarded as given"))
+            ctx.case(("forwarding-runtime", api, len(env), len(logs["proto"])))
+            # across the two forms: the same calls with the same option values reach the passes
+            if api != "replace_functions" and cl["proto"] != cl["ir"]:
+                rp, ri = results.get("proto"), results.get("ir")
+                rep = {"api": api, "options": {k: canon(v) for k, v in env.items()}, "reached_pass_proto_form": [str(x) for x in cl["proto"]],
+                       "reached_pass_ir_form": [str(x) for x in cl["ir"]], "seed": ctx.seed}
+                if isinstance(rp, onnx.ModelProto) and isinstance(ri, onnx.ModelProto) and det(rp) != det(ri):
+                    ctx.violation(f"C15:{api}:options-not-forwarded-alike",
+                                  f"{api}: with non-default options the ModelProto form and the ir.Model form hand different options to the pass "
+                                  f"and the results differ", dict(rep, model=det(src).hex() if len(det(src)) < 40000 else None))
+                else:
+                    ctx.tie_broken("correspondence", f"forwarding:{api}", f"the two entry forms hand different options to the pass: proto {cl['proto']} vs ir {cl['ir']}")
+    for api, form, why in mismatches[:6]:
+        ctx.tie_broken("translator", f"forwarding:{api}", f"{form} form: {why}")
+    ctx.obligation("correspondence: the translated pass calls / option-forwarding maps predict what reaches the callees at run time "
+                   "(recording pass-throughs, non-default value for every option, both entry forms)", not mismatches and n_calls > 0,
+                   f"{len(mismatches)} mismatches; {n_calls} wrapper calls")
+    ctx.cover(forwarding={a: {"options": table[a]["params"], "calls": [c["fun"] for c in table[a]["proto"]], "options_not_reaching_a_pass": unfw[a]}
+                          for a in APIS}, forwarding_runtime_calls=n_calls, forwarding_options_exercised=n_opts)
+
+
 # ----------------------------------------------------------------------------- the check
 
 def run(ctx):
@@ -387,6 +679,8 @@ def run(ctx):
                "(C15_convert_version_*: N M = M for the input, the pass leaves the non-graph fields alone); measured here: N(N(M)) = N(M) "
                "byte-wise, inclusion of M in N(M), determinism of proto-path vs IR-path on every generated model")
     ctx.assume("ir.to_proto(model.graph) = graph of ir.to_proto(model) (used to model convert_version's graph-only copy-back)")
+    ctx.assume("option forwarding: an argument expression that is not a bare wrapper parameter is compared across the two branches as normalised "
+               "source text over the same parameter values (equal text => equal value); keyword order is irrelevant (sorted by the translator)")
     ctx.assume("deterministic protobuf serialisation (SerializeToString(deterministic=True)) is the equality on ModelProtos")
     ctx.assume("tensor payload canonicalisation of the walker (typed fields -> little-endian bytes) follows onnx.proto; cross-checked "
                "against onnx.numpy_helper on the basic element types")
@@ -395,11 +689,11 @@ def run(ctx):
         regenerate(ctx)
     for p in ctx._c15_problems:
         ctx.tie_broken("translator", "wrappers", p)
-    ctx.obligation("translator: copy-back discipline of all seven wrappers recognised in the source", not ctx._c15_problems,
+    ctx.obligation("translator: copy-back discipline, pass calls and option forwarding of all seven wrappers recognised in the source; onnxscript.ir / ir.convenience / ir.passes are pure re-exports", not ctx._c15_problems,
                    "; ".join(ctx._c15_problems))
     disc = ctx._c15_disc
     ctx.check_props()
-    ctx.build(["Serde/Wrappers.vo", "Serde/Tree.vo", "Serde/Packing.vo", "Gen/C15Wrappers.vo"])
+    ctx.build(["Serde/Wrappers.vo", "Serde/Forward.vo", "Serde/Tree.vo", "Serde/Packing.vo", "Gen/C15Wrappers.vo"])
 
     import logging
     logging.getLogger("onnxscript.version_converter").setLevel(logging.ERROR)   # the C-API fallback logs a traceback per refusal
@@ -416,6 +710,19 @@ def run(ctx):
     # plain standard-domain models with initializers around the 1000-element limit of the C-API helper, some of them graph inputs
     for i in range(6 if ctx.tier == "quick" else 40):
         models.append(gm.gen_plain(rng, onnx, n_models + i))
+    # every field of the schema populated with a value that names its place; the variants add, one at a time, what onnx_ir is known to drop / refuse
+    full_variants = [dict(), dict(devices=False), dict(checksum=True), dict(sparse=True), dict(training=True), dict(sparse_attr=True), dict(map_type=True),
+                     dict(opaque=True)]
+    for j in range(len(full_variants) if ctx.tier == "quick" else 3 * len(full_variants)):
+        models.append(gm.gen_full(rng, onnx, len(models), **full_variants[j % len(full_variants)]))
+    schema = gm.schema_fields(onnx)
+    populated = set()
+    for m, _ in models:
+        gm.populated_fields(m, populated)
+    unset = [f for f in schema if f not in populated and f not in SCHEMA_EXCLUDED]
+    ctx.obligation(f"generator: every field of the ONNX schema reachable from ModelProto ({len(schema)} message fields) is populated in some generated model "
+                   f"(not populated on purpose: {sorted('.'.join(f) for f in SCHEMA_EXCLUDED)})", not unset, f"never populated: {unset}")
+    ctx.cover(schema_fields=len(schema), schema_fields_populated=len([f for f in schema if f in populated]))
     # validity of what we generate (the property quantifies over valid models)
     invalid = 0
     import tempfile
@@ -452,10 +759,14 @@ def run(ctx):
         twin = {"n": 0, "bad": 0}
 
         def report_lost(what, d, rep):
-            path = "/".join(str(x) for x in (d[0][:-2] if d and d[0][-1] != "missing" else d[0][:-1])) if d else "?"
-            key = lost_key(what, d)
-            ctx.violation(key, f"{what}: a populated field does not reappear with the same value at {path}",
-                          dict(rep, relation=what, differences=[list(map(str, x)) for x in d[:8]]))
+            by_key = {}
+            for x in d or [()]:
+                by_key.setdefault(lost_key(what, [x] if x else []), []).append(x)
+            for key, ds in by_key.items():
+                x = ds[0]
+                path = "/".join(str(y) for y in (x[:-2] if x and x[-1] != "missing" else x[:-1])) if x else "?"
+                ctx.violation(key, f"{what}: a populated field does not reappear with the same value at {path}",
+                              dict(rep, relation=what, differences=[list(map(str, y)) for y in ds[:8]]))
 
         def check_inclusion(what, info, ta, tb, rep, to_coq):
             """Python twin on every pair (search engine); the verified checker (Coq) on the pairs selected for this tier."""
@@ -465,7 +776,9 @@ def run(ctx):
                 twin["bad"] += 1
                 report_lost(what, d, rep)
             if to_coq:
-                incl_cases.append(f"includes ({gm.coq_tree(ta)}) ({gm.coq_tree(tb)})")
+                if not gm.py_wk(ta):
+                    ctx.tie_broken("harness", "field-tree", f"{what} on model {info['idx']}: the tree built for the left side lists a key twice")
+                incl_cases.append(f"(let a := {gm.coq_tree(ta)} in wkb a && includes a ({gm.coq_tree(tb)}))")
                 incl_meta.append((what, info, ta, tb, rep, bool(d)))
         elem_seen = set()
         n_alike = n_inert_equal = n_norm_only = 0
@@ -479,7 +792,13 @@ def run(ctx):
                 n1 = N(m)
                 n2 = N(n1)
             except Exception as e:  # noqa: BLE001
-                ctx.violation(f"C15:serde:raises:{type(e).__name__}", f"deserialize/serialize of a valid model raised {e!r}", rep0)
+                root = e
+                while root.__cause__ is not None:
+                    root = root.__cause__
+                cls = ("sparse-tensor-attribute-not-supported" if "Sparse tensors are not supported" in str(root) else
+                       "map-type-not-supported" if "Map types are not supported" in str(root) else type(root).__name__)
+                ctx.violation(f"C15:serde:raises:{cls}", f"deserialize/serialize of a valid model raised {type(root).__name__}: {str(root)[:200]}", rep0)
+                ctx.case(("N-raises", info["kind"], cls))
                 continue
             ctx.case(("N", info["kind"], info["metadata"], info["external"]))
             if det(n1) != det(n2):
@@ -607,7 +926,7 @@ def run(ctx):
                 # verified checker: carriers of N(M) survive in f(M)
                 if dkey != "rewrite_empty":
                     tf = with_nodes_by_name(gm.tree_of(onnx, result_p))
-                    tc = carriers(tn, tf)
+                    tc = carriers(tn, tf, lifted_ok=name.startswith("optimize"))
                     api_no += 1
                     in_coq = (api_no + info["idx"]) % (2 if ctx.tier == "thorough" else 4) == 0
                     check_inclusion(f"carriers<=f(M):{name}", info, tc, tf, rep, in_coq)
@@ -654,11 +973,19 @@ def run(ctx):
     ctx.cover(seconds_real_code=round(t_api, 1), seconds_coq_eval=round(time.time() - t_coq0, 1))
     ctx.cover(models=len(models), api_calls=sum(api_counts.values()), api_calls_by_name=dict(sorted(api_counts.items())), alike=n_alike,
               alike_after_normalisation_only=n_norm_only, inert_bit_equal=n_inert_equal, inclusion_checks_coq=len(incl_cases), inclusion_checks_python_twin=twin["n"],
-              effect_cases=len(eff_cases), element_types=len(elem_seen), disciplines=disc,
+              effect_cases=len(eff_cases), element_types=len(elem_seen), disciplines={k: v for k, v in disc.items() if k != "forwarding"},
               generator="kinds inert/active/functions/replace; initializers of every ONNX element type (26 incl. STRING) built field by field with "
                         "NaN payloads, -0.0, subnormals, raw and typed encodings, zero-size and scalar shapes, external-data references; "
                         "doc_string and metadata_props on model, graph, nodes, inputs/outputs, value_info, tensors, functions")
     ctx.obligation("generator: all 26 element types occurred", len(elem_seen) >= 26, f"{len(elem_seen)}")
+    os.chdir(tempfile.mkdtemp(prefix="osverif-c15-"))
+    try:
+        with open("weights.bin", "wb") as fh:
+            fh.write(bytes(range(256)) * 32)
+        forwarding_stream(ctx, disc, models, rules_some)
+    finally:
+        shutil.rmtree(os.getcwd(), ignore_errors=True)
+        os.chdir(cwd)
     packing_stream(ctx)
     if ctx.tier == "thorough":
         ctx.coqchk(["Props.C15"])
@@ -677,8 +1004,8 @@ def lost_key(what, d):
 
 def _is_known(ctx, meta):
     what, info, ta, tb, rep, _ = meta
-    key = lost_key(what, gm.py_includes(ta, tb))
-    return any(f["key"] == key and f.get("status") == "known" for f in ctx.findings)
+    keys = {lost_key(what, [x]) for x in gm.py_includes(ta, tb)}
+    return all(any(f["key"] == key and f.get("status") == "known" for f in ctx.findings) for key in keys)
 
 
 def _diff_class(d):
@@ -688,9 +1015,14 @@ def _diff_class(d):
     p = [str(x) for x in d[0]]
     if "metadata_props" in p and ("initializer" in p or "t" in p or "tensors" in p):
         return "tensor-metadata_props"
+    if "external_data" in p and "checksum" in p:
+        return "external_data/checksum"
+    if "training_info" in p:
+        return "model/training_info"
     carrier = next((c for c in ("initializer", "value_info", "functions", "node", "node_by_name", "input", "output", "opset_import", "graph")
                     if c in p), "model")
-    field = next((f for f in ("metadata_props", "doc_string", "payload", "string_data", "external_data", "data_location", "dims", "data_type",
+    field = next((f for f in ("sparse_initializer", "quantization_annotation", "configuration", "device_configurations", "opaque_type", "map_type",
+                              "sparse_tensor_type", "sequence_type", "optional_type", "denotation", "metadata_props", "doc_string", "payload", "string_data", "external_data", "data_location", "dims", "data_type",
                               "attribute", "type", "ir_version", "producer_name", "producer_version", "domain", "model_version", "name")
                   if f in p), p[-3] if len(p) >= 3 else p[0])
     return f"{carrier}/{field}"
@@ -735,9 +1067,71 @@ def packing_stream(ctx):
                     if got != want:
                         ctx.violation(f"C15:packing:{bits}bit-roundtrip", f"{n} elements {want}: onnx_ir reads back {got}", {"values": want, "bits": bits})
                 ctx.case(("packing", bits, n % 4, n == 0))
+    # ---- FLOAT4E2M1 (4-bit codec on bit patterns), 16-bit and 8-bit element types: tobytes of an ir.Tensor, raw_data and int32_data
+    # of a TensorProto read back by onnx_ir, for every length 0..9
+    wide = [("FLOAT4E2M1", 4, ml_dtypes.float4_e2m1fn), ("BFLOAT16", 16, ml_dtypes.bfloat16), ("FLOAT16", 16, np.float16),
+            ("UINT16", 16, np.uint16), ("INT16", 16, np.int16),
+            ("FLOAT8E4M3FN", 8, ml_dtypes.float8_e4m3fn), ("FLOAT8E4M3FNUZ", 8, ml_dtypes.float8_e4m3fnuz), ("FLOAT8E5M2", 8, ml_dtypes.float8_e5m2),
+            ("FLOAT8E5M2FNUZ", 8, ml_dtypes.float8_e5m2fnuz), ("FLOAT8E8M0", 8, ml_dtypes.float8_e8m0fnu), ("UINT8", 8, np.uint8), ("INT8", 8, np.int8)]
+    zl = lambda l: "[" + ";".join(f"({x})" if x < 0 else str(x) for x in l) + "]"  # noqa: E731
+    n_wide = 0
+    for name, bits, npdt in wide:
+        edt = getattr(onnx.TensorProto, name)
+        store = {4: np.uint8, 8: np.uint8, 16: np.uint16}[bits]
+        odd = gm.ODD.get(name, [])
+        for n in range(0, 10):
+            for rep in range(2 if ctx.tier == "quick" else 6):
+                pats = [(rng.choice(odd) if odd and rng.random() < 0.6 else rng.getrandbits(bits)) for _ in range(n)]
+                arr = np.array(pats, dtype=store).view(npdt) if n else np.zeros((0,), dtype=store).view(npdt)
+                try:
+                    tb = ir.Tensor(arr, dtype=ir.DataType(edt)).tobytes()
+                except Exception as e:  # noqa: BLE001
+                    ctx.violation(f"C15:packing:{name}:tobytes-raises", f"ir.Tensor({name}, {n} elements).tobytes raised {e!r}", {"patterns": pats})
+                    continue
+                enc = {4: "pack4", 8: "enc8", 16: "enc16"}[bits]
+                cases.append(f"zs_eqb ({enc} {zl(pats)}) {zl(list(tb))}")
+                # raw_data read back
+                tp = onnx.TensorProto()
+                tp.data_type = edt
+                tp.dims.append(n)
+                tp.raw_data = tb
+                t_raw = ir.serde.TensorProtoTensor(tp)
+                got = [int(x) for x in t_raw.numpy().view(store).ravel()]
+                dec = {4: f"unpack4 {n}", 8: "dec8", 16: "dec16"}[bits]
+                cases.append(f"zs_eqb ({dec} {zl(list(tb))}) {zl(got)}")
+                if got != pats or t_raw.tobytes() != tb:
+                    ctx.violation(f"C15:packing:{name}:roundtrip", f"{n} elements of {name} with bit patterns {pats}: onnx_ir reads back {got}",
+                                  {"patterns": pats, "element_type": name})
+                # the int32_data carrier: one int32 per element (16/8 bit; sign-extended for INT16/INT8), one per packed byte (4 bit)
+                tq = onnx.TensorProto()
+                tq.data_type = edt
+                tq.dims.append(n)
+                if bits == 4:
+                    ints = list(tb)
+                elif name in ("INT16", "INT8"):
+                    ints = [p - (1 << bits) if p >> (bits - 1) else p for p in pats]
+                else:
+                    ints = list(pats)
+                tq.int32_data.extend(ints)
+                t_i32 = ir.serde.TensorProtoTensor(tq)
+                got_b = list(t_i32.tobytes())
+                got_e = [int(x) for x in t_i32.numpy().view(store).ravel()] if n else []
+                cases.append(f"zs_eqb ({'int32_to_bytes16' if bits == 16 else 'int32_to_bytes8'} {zl(ints)}) {zl(got_b)}")
+                if bits == 4:
+                    cases.append(f"zs_eqb (unpack4 {n} (int32_to_bytes8 {zl(ints)})) {zl(got_e)}")
+                else:
+                    cases.append(f"zs_eqb ({'int32_to_elems16' if bits == 16 else 'int32_to_elems8'} {zl(ints)}) {zl(got_e)}")
+                if n and (got_b != list(tb) or got_e != pats):
+                    ctx.violation(f"C15:packing:{name}:int32_data-roundtrip", f"{n} elements of {name} carried in int32_data {ints}: onnx_ir gives bytes "
+                                  f"{got_b} / elements {got_e}, expected {list(tb)} / {pats}", {"patterns": pats, "element_type": name})
+                n_wide += 1
+                ctx.case(("packing", name, n % 2, n == 0))
+    ctx.cover(packing_wide_cases=n_wide)
     bad = eval_bools(ctx, ["OV.Serde.Packing"], "Open Scope Z_scope.\n", cases, "packing", shard=600)
     if bad is not None:
         for i in sorted(bad)[:5]:
             ctx.tie_broken("correspondence", "packing", f"case {cases[i][:200]}: onnx_ir bytes differ from the Coq codec")
-        ctx.obligation("correspondence: pack/unpack of 4-bit and 2-bit tensors, lengths 0..9 = Serde/Packing.v", not bad, f"{len(bad)} of {len(cases)}")
+        ctx.obligation("correspondence: pack/unpack of 4-bit (INT4, UINT4, FLOAT4E2M1) and 2-bit tensors, byte codecs of the 16-bit (BFLOAT16, FLOAT16, "
+                       "INT16, UINT16) and 8-bit (five float8 variants, INT8, UINT8) element types incl. the int32_data carrier, lengths 0..9 = Serde/Packing.v",
+                       not bad, f"{len(bad)} of {len(cases)}")
     ctx.cover(packing_cases=len(cases))
